@@ -83,12 +83,37 @@ def coq_directive(d):
                                     "None" if sp is None else "(Some %s)" % coq_str(sp), fl, coq_lf(5 if lvl is None else lvl))
 
 
+def tgt_dir(d):
+    """a Targets directive: (target|None, level) from the builder API, or (target|None, [field names], level)"""
+    return (d[0], [], d[1]) if len(d) == 2 else (d[0], list(d[1]), d[2])
+
+
+def tgt_is_str(f):
+    """("tgt", ds) is built with with_target / with_default; ("tgt", ds, "str") or any directive with field names is
+    parsed from a string with Targets::from_str"""
+    return bool(f[1]) and ((len(f) > 2 and f[2] == "str") or any(tgt_dir(d)[1] for d in f[1]))
+
+
+def render_static(d):
+    """StaticDirective::from_str: `level` | `target=level` | `target[{f,..}]=level` (a target is always Some(..) when
+    there is an `=`: the default directive can only be written as a bare level)"""
+    t, fl, l = d
+    assert len(fl) <= 1, "Targets::from_str splits at every comma: only single-field directives can be written"
+    if t is None:
+        assert not fl, "a field-name directive needs a (possibly empty) target"
+        return LFNAME[l]
+    return "%s%s=%s" % (t, ("[{%s}]" % ",".join(fl)) if fl else "", LFNAME[l])
+
+
 def f_sx(f):
     k = f[0]
     if k == "lvl":
         return "(lvl %d)" % f[1]
     if k == "tgt":
-        return "(tgt %s)" % " ".join("(%s %d)" % ("*" if t is None else ('""' if t == "" else t), l) for t, l in f[1])
+        ds = [tgt_dir(d) for d in f[1]]
+        if tgt_is_str(f):
+            return '(tgts "%s")' % ",".join(render_static(d) for d in ds)
+        return "(tgt %s)" % " ".join("(%s %d)" % ("*" if t is None else ('""' if t == "" else t), l) for t, _, l in ds)
     if k == "env":
         return '(env %d "%s")' % (f[1], ",".join(render_directive(d) for d in f[2]))
     if k == "fn":
@@ -108,7 +133,9 @@ def f_coq(f):
     if k == "lvl":
         return "(FLevel %s)" % coq_lf(f[1])
     if k == "tgt":
-        return "(FTargets [%s])" % "; ".join("(%s, %s)" % ("None" if t is None else "(Some %s)" % coq_str(t), coq_lf(l)) for t, l in f[1])
+        return "(FTargets [%s])" % "; ".join(
+            "(%s, [%s], %s)" % ("None" if t is None else "(Some %s)" % coq_str(t), "; ".join(coq_str(x) for x in fl), coq_lf(l))
+            for t, fl, l in (tgt_dir(d) for d in f[1]))
     if k == "env":
         return "(FEnv %d [%s])" % (f[1], "; ".join(coq_directive(d) for d in f[2]))
     if k == "fn":
@@ -272,6 +299,20 @@ class Gen:
             if ds and r.random() < 0.25:  # replace-on-duplicate with a lower level: max_level is recomputed over the set
                 t, l = r.choice(ds)
                 ds.append((t, max(0, l - r.randint(1, 3))))
+            if r.random() < 0.4:
+                # parsed from a string (Targets::from_str), with field-name directives: `a=warn,a[{x}]=trace` - the
+                # field directive is more specific, applies to events that carry the fields (and to every span) and is
+                # usually more permissive than the field-less directive of the same target
+                ds3 = [(t, [], l) for t, l in ds]
+                for _ in range(r.choice([1, 1, 2])):
+                    base = r.choice(ds3) if ds3 and r.random() < 0.7 else (r.choice(["a", "ab", "a::b", "b", ""]), [], self.lvl())
+                    t = base[0] if base[0] is not None else r.choice(["", "a", "b"])
+                    fl = [r.choice(["x", "x", "y", "y", "z"])]  # one name: Targets::from_str splits the string at EVERY comma (C11)
+                    lv = min(5, base[2] + r.randint(1, 3)) if r.random() < 0.75 else self.lvl()
+                    ds3.insert(r.randrange(len(ds3) + 1), (t, fl, lv))
+                return ("tgt", ds3, "str")
+            if ds and r.random() < 0.15:  # (the empty string is not the empty set: "" parses as the level ERROR, F13)
+                return ("tgt", ds, "str")
             return ("tgt", ds)
         if k == "env":
             self.env_id += 1
